@@ -155,6 +155,26 @@ fn long_cases(ctx: &Ctx, bits: u8) -> Vec<(usize, usize)> {
     v
 }
 
+/// the same cases on exact-fit operands: owned sequences without spare words and windows that are the tail of
+/// such an allocation (whole-word lengths, aligned / unaligned starts) — an access past the last word or byte of
+/// the content leaves the allocation
+fn exact_fit<C: CI>(ctx: &mut Ctx, what: &str, case: fn(&mut Ctx, &[u8], usize)) {
+    let a = C::alpha();
+    let name = C::NAME;
+    ctx.group(&format!("{name}/{what}/exact-fit"), |ctx| {
+        let cases = exact_fit_cases_for(ctx, a.bits);
+        for (k, (n, pad)) in cases.into_iter().enumerate() {
+            if ctx.over() {
+                break;
+            }
+            let _fit = exact_fit_mode();
+            let codes = patterns(ctx, a, n, k);
+            case(ctx, &codes, pad);
+            cell!(ctx, "{name}/{what}/exact-fit/{}/pad{}", len_class(a.bits, n), if pad == 0 { "0" } else if (pad * a.bits as usize) % 64 == 0 { "word" } else { "unaligned" });
+        }
+    });
+}
+
 fn run_rev<C: CI>(ctx: &mut Ctx) {
     let a = C::alpha();
     let name = C::NAME;
@@ -179,6 +199,7 @@ fn run_rev<C: CI>(ctx: &mut Ctx) {
             rev_case::<C>(ctx, &codes, pad);
         }
     });
+    exact_fit::<C>(ctx, "reverse", rev_case::<C>);
 }
 
 fn run_comp<C: CI + ComplementMut>(ctx: &mut Ctx)
@@ -206,10 +227,26 @@ fn run_comp<C: CI + ComplementMut>(ctx: &mut Ctx)
             comp_case::<C>(ctx, &codes, pad);
         }
     });
+    exact_fit::<C>(ctx, "complement", comp_case::<C>);
 }
 
 fn main() {
     run_main("C07", |ctx| {
+        ctx.first_use_race(3, |t| {
+            let d: Seq<Dna> = ["ACGTTGCAACGTACGTACGTACGTACGTACGTTTGAC", "TTGACCA", "GATTACAGATTACAGATTACAGATTACAGATTACA"][t % 3].try_into().unwrap();
+            let i: Seq<Iupac> = ["ACGTRYSWKMBDHVN-ACGT", "NNRY-", "BDHVACGTBDHVACGTB"][t % 3].try_into().unwrap();
+            let m: Seq<Amino> = "MAGICLIFEQRSTVWY*".try_into().unwrap();
+            let x: Seq<Text> = "ACGTNNGATTACA".try_into().unwrap();
+            let mut e = d.clone();
+            e.revcomp();
+            (
+                (d.to_rev().to_string(), d.to_comp().to_string(), d.to_revcomp().to_string(), d[1..].to_revcomp().to_string(), e.to_string()),
+                (i.to_rev().to_string(), i.to_comp().to_string(), i.to_revcomp().to_string()),
+                m.to_rev().to_string(),
+                x.to_rev().to_string(),
+                Dna::items().map(|s| s.to_comp().to_bits()).collect::<Vec<u8>>(),
+            )
+        });
         for_each_codec!(run_rev, ctx);
         for_each_comp_codec!(run_comp, ctx);
         ctx.note("rule", json!("reverse for all 7 codecs and complement / reverse-complement for the 5 complementable ones: every length 0..2 words (+boundary classes to 3 words; thorough: every length to 3 words) x ALL achievable bit offsets (thorough: 8 contents per cell), contents random / palindromic / single-symbol; plus long sequences of 4, 5, 8, 9, 16 and 33 machine words (+-1 symbol) at three offsets, all codecs in one process (so process-wide caches are shared between codecs); slice, owned and in-place forms; compositions and involutions; receiver image compared before/after. Distinct = (codec, op, content, pad); all non-trivial except length 0/1 which are counted too."));
